@@ -51,7 +51,7 @@ Fixpoint strip_s (s : stmt) : stmt :=
   | SContinue => SContinue
   | SComponent _ cid n arg slots block =>
     SComponent 0 cid n (match arg with Some a => Some (strip_e a) | None => None end)
-               (map (fun sl => match sl with (_, nm, b) => (O, nm, map strip_s b) end) slots) (oss block)
+               [] (oss block)       (* the evaluator never reads the slots of a use: they were put into block at load time *)
   | SSlot _ n body => SSlot 0 n (oss body)
   | SDump _ args => SDump 0 (map strip_e args)
   end.
@@ -270,7 +270,7 @@ Proof.
         rewrite (e_match arg _ _ N), (e_match arg0 _ _ N'). apply sim_bind; [apply IHe, H1|intro; reflexivity].
     + (* breakif *) injection H as H. apply sim_bind; [apply IHe, H|intro; reflexivity].
     + (* continueif *) injection H as H. apply sim_bind; [apply IHe, H|intro; reflexivity].
-    + (* component *) injection H as _ <- H2 _ H4. pose proof (strip_o_cases _ _ H4) as HC.
+    + (* component *) injection H as _ <- H2 H4. pose proof (strip_o_cases _ _ H4) as HC.
       destruct block as [ss|], block0 as [ss0|]; try contradiction; [|reflexivity].
       apply sim_bind.
       { destruct arg as [a|], arg0 as [a0|]; try discriminate H2; [|reflexivity].
